@@ -368,6 +368,10 @@ func (e *Exec) prove(st *State, o *Oblig, goal *Term, gsks []*Term) CheckResult 
 			for _, x := range insts {
 				e.assumeRaw(x) // existentials of the instances become witnesses
 			}
+			// second round: quantifiers nested in the instances just added
+			for _, x := range s.instancesFrom(len(s.qlv)-1, at) {
+				e.assumeRaw(x)
+			}
 			if cands := e.candidates(st, sks); len(cands) > 0 && hasEx {
 				goal = strengthen(goal, true, cands, 0)
 				e.ensureDecls(goal)
